@@ -75,6 +75,8 @@ CHECKS['C17'] = ('generated complete enumeration: every 2/3/4-letter swizzle ove
 # supplements added after the seeded-defect rounds (kept short: the technique field names the deciding method)
 for _i in ('C01', 'C02', 'C04', 'C05', 'C10'):
     t = CHECKS[_i]; CHECKS[_i] = (t[0] + '; aliasing supplement: every in-place / compound / out-parameter form run with the destination as operand and compared bitwise with the same call on a copy', ) + t[1:]
+for _i in ('C01', 'C03', 'C05', 'C11', 'C15', 'C18'):
+    t = CHECKS[_i]; CHECKS[_i] = (t[0] + '; constant-argument supplement: scalar arguments as compile-time constants vs the same values read from volatiles inside one optimised build, bitwise comparison', ) + t[1:]
 t = CHECKS['C01']; CHECKS['C01'] = (t[0] + '; gtx/component_wise conversions per component against the vec1 call, reductions against the fold of the scalar operation', ) + t[1:]
 REASONS = {}
 
